@@ -67,6 +67,7 @@ PROPS = {
         "assumptions": ["float estimator output abstracted: theorems quantify over all coefficients/shifts/orders", "source contract: read_samples delivers min(block_size, remaining) samples"],
     },
     "C02": {
+        "theorem_modules": ["FlacVerif.Theorems.C02", "FlacVerif.Theorems.C02Gen"], "uses_gen": ["tables"],
         "streams": {"quick": [("stream", ["--cases", 400, "--max-samples", 6000])],
                     "thorough": [("stream", ["--cases", 6000, "--max-samples", 40000])],
                     "search": [("stream", ["--cases", 1500, "--max-samples", 12000])]},
@@ -287,7 +288,7 @@ PARSER_RULE = ("parser stream: 14+ small emitted streams covering every subframe
 
 PROPS.update({
     "C16": {
-        "theorem_modules": ["FlacVerif.Theorems.C16crc", "FlacVerif.Theorems.C16"],
+        "theorem_modules": ["FlacVerif.Theorems.C16crc", "FlacVerif.Theorems.C16", "FlacVerif.Theorems.C02Gen"], "uses_gen": ["tables"],
         "streams": {"quick": [("parser", ["--cases", 14, "--burst-stride", 40, "--random", 1500])],
                     "thorough": [("parser", ["--cases", 40, "--burst-stride", 1, "--random", 200000])],
                     "search": [("parser", ["--cases", 30, "--burst-stride", 4, "--random", 20000])]},
@@ -309,7 +310,7 @@ CONFIG_RULE = ("config stream: corpus (F2: partitions 0 / 1000, max_order 7; F13
 
 PROPS.update({
     "C07": {
-        "driver": "fvconfig",
+        "driver": "fvconfig", "uses_gen": ["constants", "config"],
         "streams": {"quick": [("config", ["--cases", 150])], "thorough": [("config", ["--cases", 800, "--thorough"])], "search": [("config", ["--cases", 800, "--thorough"])]},
         "profiles": {"quick": ["release", "dev"], "thorough": ["release", "dev"]},
         "diff_prefix": ["c07."], "oracle_fields": ["o_c07"], "rule": CONFIG_RULE,
@@ -319,7 +320,7 @@ PROPS.update({
         "assumptions": ["alpha is a genuine f32 bit pattern (< 2^32)"],
     },
     "C19": {
-        "driver": "fvconfig",
+        "driver": "fvconfig", "uses_gen": ["constants", "config"],
         "streams": {"quick": [("config", ["--cases", 150])], "thorough": [("config", ["--cases", 800, "--thorough"])], "search": [("config", ["--cases", 800, "--thorough"])]},
         "diff_prefix": ["c19."], "oracle_fields": ["o_c19"], "rule": CONFIG_RULE,
         "trusted_base": ["tools/translate.py: struct shapes, serde attributes (container default, tag, per-field default fns) and Default impls are read from config.rs on every run",
